@@ -214,7 +214,9 @@ fn decode(bytes: &[u8]) -> Case {
     let mut c = Choices::new(bytes);
     match c.weighted(&[5, 3, 4]) {
         0 => {
-            let limit = *c.pick(&[4usize << 10, 8 << 10, 32 << 10, 128 << 10, 1 << 20]);
+            // an absolute limit, or (values below 1000) a percentage of the bytes the program has
+            // allocated at its peak when nothing is ever collected
+            let limit = *c.pick(&[4usize << 10, 8 << 10, 32 << 10, 128 << 10, 1 << 20, 30, 55, 80, 100, 125]);
             let cfg = GenCfg { tables: 10, closures: 4, natives: 6, reentry: 2, expr_stmt: 0, errors: 0, wide_globals: false, abort: false, return_in_main: false, ..GenCfg::default() };
             Case::Program(gen_program(&mut c, &cfg), limit)
         }
@@ -336,18 +338,25 @@ fn run_program_sched(prog: &Program, limit: usize, schedule: GcSchedule, cx: &mu
     }
     if oom {
         cx.labels.push("oom".into());
-        // OutOfMemory only if what is still reachable plus the refused request does not fit
-        let request = ev.iter().rev().find_map(|e| if let AllocEvent::Fail { charged, .. } = e { Some(*charged) } else { None }).unwrap_or(0);
-        let (_, bytes) = reachable(&vm, &[]);
-        if bytes + request <= limit / 2 {
-            return Err(fail(
-                "oom_only_when_live_data_does_not_fit",
-                format!("OutOfMemory under limit {} while only {} bytes are reachable and the refused request needs {} (after {} collections, counter at failure {})", limit, bytes, request, collections, ledger.sum),
-            ));
-        }
+        // "OutOfMemory only if what is reachable plus the refused request does not fit" is decided
+        // by the callers: the same program under "collect at every allocation" has nothing but
+        // reachable data charged at every request, and must be refused at the same point (what
+        // is reachable *after* the failing instruction unwound says nothing about that moment)
+        let _ = collections;
     }
     let live = end_checks(&mut vm, &mut ledger, limit, cx)?;
     Ok((collections >= 2 || oom || ledger.fails > 0, obs, live))
+}
+
+/// bytes outstanding at the peak of a run under a huge limit during which nothing is collected
+fn peak_without_collections(prog: &Program) -> Result<usize, Failure> {
+    let compiled = compile_program(prog).map_err(|e| fail("compiles", format!("{}", e)))?;
+    let mut vm = start_vm_with(256 << 20, GcSchedule::Never);
+    let _ = run_on(&mut vm, &compiled, &prog.globals);
+    let ev: Vec<AllocEvent> = std::mem::take(&mut verif::alloc_hooks(&vm.runtime_data).events);
+    let mut ledger = Ledger::default();
+    ledger.feed(&ev, usize::MAX).map_err(|(c, d)| fail(&c, d))?;
+    Ok(ledger.peak)
 }
 
 fn same_obs(a: &Obs, b: &Obs) -> Option<String> {
@@ -491,12 +500,12 @@ impl Property for C05 {
         "C05"
     }
     fn rule(&self) -> &'static str {
-        "case = (A) generated table-heavy program under a limit from {4K,8K,32K,128K,1M}; (B) a loop of n in 20..320 iterations of pure garbage (4 shapes: table+string, string, 12-entry table, closure+string) after a retaining prefix, under limits {16K,64K,400K}; (C) a host-API history of <=60 ops (init_string of 0..5000 bytes, init_table with 0..29 entries, keep or drop the guard, push a guarded object, pop, gc, clear, set_memory_limit) under limits {1K,4K,64K,1M}. Oracle: shadow ledger over the allocator's event hook after every run/op (counter == sum of outstanding charges, <= limit, a refused request changes nothing), after a final collection live objects == objects reachable from stack/globals/open upvalues/guards (computed by an independent walker), after clear counter == 0 and nothing outstanding, OutOfMemory only if reachable bytes + request > limit/2; family A: the observation (outcome incl. OutOfMemory, host log, globals) is identical under the natural trigger, collection at every allocation, and no collection other than the one before refusing; family B: with r retained 200-byte strings (0..105% of the limit; measured by running the retaining prefix alone) neither n nor 10n iterations (natural trigger) nor 3n iterations (no collection until the limit) may fail whenever retained bytes + 6 KiB <= limit; family C: a refused init_string / init_table / insert is still refused when retried right after an explicit collection. non-trivial = >=2 collections, or a refused allocation, or a clear followed by more work; distinct by hash of the decoded case"
+        "case = (A) generated table-heavy program under a limit from {4K,8K,32K,128K,1M}; (B) a loop of n in 20..320 iterations of pure garbage (4 shapes: table+string, string, 12-entry table, closure+string) after a retaining prefix, under limits {16K,64K,400K}; (C) a host-API history of <=60 ops (init_string of 0..5000 bytes, init_table with 0..29 entries, keep or drop the guard, push a guarded object, pop, gc, clear, set_memory_limit) under limits {1K,4K,64K,1M}. Oracle: shadow ledger over the allocator's event hook after every run/op (counter == sum of outstanding charges, <= limit, a refused request changes nothing), after a final collection live objects == objects reachable from stack/globals/open upvalues/guards (computed by an independent walker), after clear counter == 0 and nothing outstanding, family A (limit absolute, or 30/55/80/100/125% of the bytes allocated at the peak of a collection-free run): the observation (outcome incl. OutOfMemory, host log, globals) is identical under the natural trigger, collection at every allocation, and no collection other than the one before refusing; family B: with r retained 200-byte strings (0..105% of the limit; measured by running the retaining prefix alone) neither n nor 10n iterations (natural trigger) nor 3n iterations (no collection until the limit) may fail whenever retained bytes + 6 KiB <= limit; family C: a refused init_string / init_table / insert is still refused when retried right after an explicit collection. non-trivial = >=2 collections, or a refused allocation, or a clear followed by more work; distinct by hash of the decoded case"
     }
     fn assumptions(&self) -> Vec<String> {
         vec![
             "the ordered key list of a table and the upvalue list of a closure are ordinary Rust Vecs that the allocator never sees; they are not part of the ledger (recorded as an observation, not asserted)".into(),
-            "the OutOfMemory rule is asserted with a factor 2 of slack, because the refused request is observed after the instruction unwound".into(),
+            "'refused only if reachable data + request do not fit' is asserted in its exact differential forms (same observation under every collection schedule at the same limit; a refused host request is refused again after an explicit collection; bounded-live-data loops never fail), not by estimating reachable bytes after the failing instruction unwound".into(),
             "guards are dropped before clear / set_memory_limit (a guard must not outlive its object)".into(),
         ]
     }
@@ -539,6 +548,14 @@ impl Property for C05 {
                 // program does, and in particular not whether a request is refused (a request is
                 // refused only if what is reachable plus the request does not fit)
                 (|| {
+                    let limit = &if *limit < 1000 {
+                        cx.labels.push(format!("limit_{}%_of_peak", limit));
+                        let peak = peak_without_collections(p)?;
+                        cx.labels.push(format!("peak_2^{}", usize::BITS - peak.leading_zeros()));
+                        (peak * *limit / 100).max(256)
+                    } else {
+                        *limit
+                    };
                     let (nt, natural, _) = run_program_sched(p, *limit, GcSchedule::Natural, &mut cx)?;
                     for (name, sched) in [("never", GcSchedule::Never), ("every", GcSchedule::Every)] {
                         let (_, other, _) = run_program_sched(p, *limit, sched, &mut cx)?;
